@@ -7,6 +7,9 @@ BAD = fx(-99999)
 SEASONS = ["spring", "summer", "autumn", "winter"]
 
 
+_SHARED = {}
+
+
 def _oc(ex):
     n = type(ex).__name__
     return n if n in ("TypeError", "ValueError", "ZeroDivisionError") else "other:" + n
@@ -59,7 +62,12 @@ def gen_eot(y0, ndays):
     j0 = Epoch(y0, 1, 1).jde()
     for i in range(ndays):
         t = j0 + float(i)
-        e = Epoch(t)
+        if i % 3 == 2:
+            # the run's ONE long-lived Epoch, set() to this day after it has been asked the equation of time of earlier days
+            e = _SHARED.setdefault("e", Epoch(2451545.0))
+            e.set(t)
+        else:
+            e = Epoch(t)
         ev = {"k": "eot", "t": fx(t), "tf": t, "y": int(e.get_date()[0])}
         try:
             m, s = Sun.equation_of_time(e)
